@@ -454,22 +454,31 @@ char *FUNC(generate)(jwt_common_t *__cmd)
 	jwt->claims = json_deep_copy(__cmd->c.payload);
 
 	/* Our internal work first */
+	jval.error = JWT_VALUE_ERR_NONE;
+
 	if (__cmd->c.claims & JWT_CLAIM_IAT) {
 		jwt_set_SET_INT(&jval, "iat", (long)tm);
 		jval.replace = 1;
 		jwt_claim_set(jwt, &jval);
 	}
 
-	if (__cmd->c.claims & JWT_CLAIM_NBF) {
+	if (!jval.error && (__cmd->c.claims & JWT_CLAIM_NBF)) {
 		jwt_set_SET_INT(&jval, "nbf", (long)(tm + __cmd->c.nbf));
 		jval.replace = 1;
 		jwt_claim_set(jwt, &jval);
 	}
 
-	if (__cmd->c.claims & JWT_CLAIM_EXP) {
+	if (!jval.error && (__cmd->c.claims & JWT_CLAIM_EXP)) {
 		jwt_set_SET_INT(&jval, "exp", (long)(tm + __cmd->c.exp));
 		jval.replace = 1;
 		jwt_claim_set(jwt, &jval);
+	}
+
+	if (jval.error) {
+		// LCOV_EXCL_START
+		jwt_write_error(__cmd, "Error setting iat, nbf or exp");
+		return NULL;
+		// LCOV_EXCL_STOP
 	}
 
 	/* Alg and key checks */
